@@ -64,9 +64,9 @@ fn extract_fn(base: &Program, step: usize, item: usize, style: CallStyle, named:
     let (E::Col(c), E::Int(k)) = (*l, *r) else { return None };
     let fidx = p.funcs.len();
     let f = if named {
-        UserFn { name: "fx".into(), params: vec![param.into()], named: vec![("yy".into(), k)], style, body: E::bin(op, E::Col(0), E::Col(1)) }
+        UserFn { name: "rwf".into(), params: vec![param.into()], named: vec![("yy".into(), k)], style, body: E::bin(op, E::Col(0), E::Col(1)) }
     } else {
-        UserFn { name: "fx".into(), params: vec![param.into()], named: vec![], style, body: E::bin(op, E::Col(0), E::Int(k)) }
+        UserFn { name: "rwf".into(), params: vec![param.into()], named: vec![], style, body: E::bin(op, E::Col(0), E::Int(k)) }
     };
     *slot = E::Call(fidx, vec![E::Col(c)]);
     p.funcs.push(f);
